@@ -29,7 +29,7 @@ class Item:
         self.res = self.model_accepts = self.kf = None
 
 
-def run_items(ctx, items, pool=None):
+def run_items(ctx, items, pool=None, coq_file_fn=None):
     """Fills item.res (implementation), item.model_accepts (Coq, model of the current implementation) and
     item.kf (a recorded known finding changes the verdict).  Returns True when every Coq file compiled."""
     own = pool is None
@@ -43,7 +43,7 @@ def run_items(ctx, items, pool=None):
     for k in range(0, len(items), CHUNK):
         part = items[k:k + CHUNK]
         files.append(("cases_%04d" % (k // CHUNK),
-                      S.coq_cases_file([it.scenario for it in part], [it.res["outcome"] == "accept" for it in part])))
+                      (coq_file_fn or S.coq_cases_file)([it.scenario for it in part], [it.res["outcome"] == "accept" for it in part])))
     outs = ctx.coq_eval_many(files)
     all_ok = True
     for k, (ok, out) in enumerate(outs):
